@@ -194,6 +194,22 @@ impl Arena {
         unsafe { slice::from_raw_parts_mut(ptr.cast().as_ptr(), count) }
     }
 
+    /// Verification hooks: read-only views of the arena state.
+    #[cfg(naijascript_verif)]
+    pub fn verif_commit(&self) -> usize {
+        self.commit.get()
+    }
+
+    #[cfg(naijascript_verif)]
+    pub fn verif_capacity(&self) -> usize {
+        self.capacity
+    }
+
+    #[cfg(naijascript_verif)]
+    pub fn verif_base(&self) -> *const u8 {
+        self.base.as_ptr()
+    }
+
     pub fn vec_into_slice<T: Copy>(mut vec: Vec<T, &Self>) -> &[T] {
         if vec.is_empty() {
             return &[];
